@@ -146,9 +146,11 @@ class NetSnap:
         psi, H = self.psi, self.H
         m = []
         if psi is not None:
-            m.append((tuple(psi.form), float(psi.norm), psi.bc, tuple(id(b) for b in psi._B), len(psi._S), tuple(psi.chi), psi.grouped))
+            m.append((tuple(psi.form), float(psi.norm), psi.bc, tuple(id(b) for b in psi._B), len(psi._S), tuple(psi.chi), psi.grouped,
+                      tuple(id(s_) for s_ in psi.sites)))  # (the list of sites is per object: permuting a copy must not reorder it)
         if H is not None:
-            m.append((tuple(H.IdL), tuple(H.IdR), H.bc, tuple(id(w) for w in H._W), H.max_range, H.explicit_plus_hc))
+            m.append((tuple(H.IdL), tuple(H.IdR), H.bc, tuple(id(w) for w in H._W), H.max_range, H.explicit_plus_hc,
+                      tuple(id(s_) for s_ in H.sites)))
         return m
 
     def diff(self):
@@ -170,7 +172,8 @@ def case_network(ctx, i):
     import checks.C11 as C11
     rng = ctx.rng
     try:
-        H, ref, sites, kind, terms, strengths = C11.make_mpo(rng, L=int(rng.integers(3, 6)))
+        # (a third of the networks has different Site objects along the chain: reordering the sites of a copy is visible then)
+        H, ref, sites, kind, terms, strengths = C11.make_mpo(rng, L=int(rng.integers(3, 6)), kind='mixed_fermion_spin' if rng.random() < 0.3 else None)
     except C11._Skip:
         ctx.count('skipped')
         return
@@ -307,7 +310,7 @@ def case_network(ctx, i):
             elif k == 4:
                 name = 'copy+inplace_mps_method'
                 psi2 = psi.copy()
-                which = int(rng.integers(0, 6))
+                which = int(rng.choice([0, 1, 2, 3, 3, 3, 4, 5]))
                 opn = sorted(n_ for n_ in sites[j].opnames if not sites[j].op_needs_JW(n_))
                 if which == 0:
                     psi2.apply_local_op(j, opn[int(rng.integers(len(opn)))], unitary=False)
@@ -316,7 +319,10 @@ def case_network(ctx, i):
                 elif which == 2:
                     psi2.convert_form(str(rng.choice(['A', 'B', 'C', 'Th'])))
                 elif which == 3 and j < L - 1:
-                    psi2.swap_sites(j)
+                    if rng.random() < 0.5:
+                        psi2.swap_sites(j)
+                    else:
+                        psi2.permute_sites([int(x) for x in rng.permutation(L)])
                 elif which == 4:
                     psi2.group_sites(2)
                 else:
